@@ -86,6 +86,9 @@ class QuicConnectionProtocol(asyncio.DatagramProtocol):
         stream_id = self._quic.get_next_available_stream_id(
             is_unidirectional=is_unidirectional
         )
+        # open the stream right away, otherwise a second call made before
+        # anything is written would be given the same stream ID
+        self._quic.send_stream_data(stream_id, b"")
         return self._create_stream(stream_id)
 
     def request_key_update(self) -> None:
